@@ -277,8 +277,17 @@ func (c *directCell) run() (obs string) {
 }
 
 // judge compares an observation of the real code with the declarative spec.
-func judge(o *hx.Out, k int, layer string, e *env, ss []signer, h util.Uint160, obs string, desc func() string) {
+func judge(o *hx.Out, k int, layer string, u *universe, e *env, ss []signer, h util.Uint160, obs string, desc func() string) {
 	want, why := e.specWitness(ss, h)
+	if !e.frames[0].rs && (obs == "true" || obs == "false") {
+		// group lookups need ReadStates: without the flag a boolean outcome cannot depend on any manifest
+		for _, v := range e.groupVariants(u.keys) {
+			if w, _ := v.specWitness(ss, h); fmt.Sprint(w) != obs {
+				o.Fail("witness-reads-groups-without-readstates", k, "%s: real=%s but with other manifests the spec is %v: %s", layer, obs, w, desc())
+				break
+			}
+		}
+	}
 	o.Count(layer + ":obs=" + obs)
 	o.Count(layer + ":spec=" + why)
 	switch obs {
@@ -306,7 +315,7 @@ func runDirectCase(o *hx.Out, k int, r *prng.R, u *universe) {
 	obs := c.run()
 	line := fmt.Sprintf("cw %s %s %s", hTok(c.h), e.tok(), signersTok(c.signers))
 	o.Line(line, obs)
-	judge(o, k, "direct", e, c.signers, c.h, obs, func() string { return line })
+	judge(o, k, "direct", u, e, c.signers, c.h, obs, func() string { return line })
 	o.Count(fmt.Sprintf("direct:depth=%d", len(c.steps)))
 	o.Count(fmt.Sprintf("direct:signers=%d", len(c.signers)))
 	o.Seen(line)
